@@ -137,6 +137,9 @@ func fileTreeRecursive(
 
 	// depth > 1
 
+	// children handed in by the caller are the previous, already complete,
+	// level; everything appended below is new at this level.
+	seeded := len(children)
 	if children == nil {
 		children = make(fileShards, 0)
 	}
@@ -157,8 +160,10 @@ func fileTreeRecursive(
 	if len(children) == 0 {
 		// empty case
 		return fileShardMeta{}, nil
-	} else if len(children) == 1 {
-		// degenerate case
+	} else if len(children) == 1 && seeded == 1 {
+		// degenerate case: no more data, the previous root stays the root.
+		// A lone child that was read at this level still gets its own
+		// parent node, as in the reference balanced layout.
 		return children[0], nil
 	}
 
